@@ -1075,6 +1075,11 @@ var _ rpc.Resources
 //@   ensures[C02] forall a string :: a != rid ==> has(s.refs, a) == old(has(s.refs, a)) && (has(s.refs, a) ==> s.refs[a] == old(s.refs[a]))
 //@   ensures[C02] (result1 != nil) == (old(s.c.(*wsConn).disposing) && !old(has(s.refs, rid)))
 //@   ensures[C02] result1 != nil ==> !has(s.refs, rid) && reserr.predErrOK(result1)
+// (a new entry is one more indirect subscription of the referenced resource, a repeated one is not)
+//@   ensures[C02] forall x *Subscription :: !fresh(x) ==> x.indirect >= old(x.indirect)
+//@   ensures[C02] old(has(s.refs, rid)) ==> (forall x *Subscription :: !fresh(x) ==> x.indirect == old(x.indirect))
+//@   ensures[C02] forall x *Subscription :: !fresh(x) && x != result0 ==> x.indirect == old(x.indirect)
+//@   ensures[C02] result1 == nil && !old(has(s.refs, rid)) && !fresh(result0) ==> result0.indirect == old(result0.indirect) + 1
 //@   ensures predRefsOK() && predOwnRefs(s)
 //@   ensures predCountsOK() && (forall x *Subscription :: x.err != nil ==> reserr.predErrOK(x.err))
 //@   ensures forall r string :: has(s.c.(*wsConn).subs, r) ==> s.c.(*wsConn).subs[r] != nil && s.c.(*wsConn).subs[r].c == s.c
@@ -1361,6 +1366,9 @@ var _ rpc.Resources
 //@   requires s != nil && event != nil && s.c != nil && predConnOK(s.c.(*wsConn))
 //@   assumes predSubsOK(s.c.(*wsConn)) && predRefsOK() && predRemoveOK(s, event)
 //@   assumes event.Event == "add" ==> event.Value.Type >= codec.ValueTypePrimitive && event.Value.Type <= codec.ValueTypeData
+// (of a resource's parents, the sent ones are a subset: indirectsent never exceeds indirect)
+//@   assumes forall x *Subscription :: x.indirectsent <= x.indirect
+//@   assert[C02] s.c.Send#1: forall x *Subscription :: x.indirectsent <= x.indirect
 //@   ensures[C03] old(s.c.(*wsConn).ws) != nil && event.Event == "add" && old(event.Value.Type) != codec.ValueTypeReference ==> wsframes == old(wsframes) + 1
 //@   ensures[C03] old(s.c.(*wsConn).ws) != nil && event.Event == "remove" ==> wsframes == old(wsframes) + 1
 //@   ensures[C03] old(s.c.(*wsConn).ws) != nil && event.Event != "add" && event.Event != "remove" && event.Event != "delete" ==> wsframes == old(wsframes) + 1 &&
